@@ -3,6 +3,8 @@ import TacklerModel.Model.Select
 import TacklerModel.Model.Equity
 import TacklerModel.Model.Print
 import TacklerModel.Lemmas.RoundTripTxn
+import TacklerModel.Props.C06b
+import TacklerModel.Props.C10
 /-!
 # Helper lemmas of `Props/E2Eb.lean`
 
@@ -45,6 +47,183 @@ theorem parseAll_text (cfg : Time.TsCfg) (blob : String → List Char) : ∀ (se
       | err => rfl
       | undef => rfl
       | ok r2 => obtain ⟨tss, st2⟩ := r2; simp [Outcome.map]
+
+/-! ## 2. the equity export as characters, and its parse
+
+`eqChars` is the export text in the vocabulary of `Model/Print.lean` (lists of characters); §4 shows that it is the
+text `Tackler.equityText` writes.  A generated transaction prints like a transaction of the identity export
+(`Print.headerL Layout.identity`, posting lines, one empty line) except that a posting line has exactly two blanks
+between account and amount and no sign padding: it is the posting line of `C10.toPosting p` in the identity
+layout when the amount is negative, and in the layout with a one-blank separator otherwise — so C06's per-line
+round trip (`Syntax.parseTxnPosting_print`, any layout of the family) applies line by line. -/
+
+open Print
+
+/-- one posting line of the equity export (`postingLine` of `Model/Equity.lean` and its newline) -/
+def eqPostingChars (p : EqPosting) : List Char :=
+  [' ', ' ', ' '] ++ acctChars p.acct ++ [' ', ' '] ++ p.amount.toChars ++ commChars p.comm ++ ['\n']
+
+/-- one generated transaction: header line, comment lines, posting lines, empty line -/
+def eqTxnChars (t : EqTxn) : List Char :=
+  headerL Layout.identity t.toRaw.header ++ (t.posts.map eqPostingChars).flatten ++ ['\n']
+
+/-- the whole export -/
+def eqChars (out : List EqTxn) : List Char := (out.map eqTxnChars).flatten
+
+/-- the identity layout with one blank between account and amount -/
+def sepOne : Layout := { Layout.identity with sep := [' '] }
+
+theorem layoutOK_sepOne : LayoutOK sepOne := by
+  refine ⟨?_, ?_, ?_, ?_, ?_, ?_, ?_, ?_, ?_, ?_⟩ <;> simp [sepOne, Print.Layout.identity, Blanks, isSpace, IsEol]
+
+/-- the layout in which `C10.toPosting p` prints as the equity export prints `p` -/
+def eqLayout (p : EqPosting) : Layout := if p.amount.isNeg then Layout.identity else sepOne
+
+theorem layoutOK_eqLayout (p : EqPosting) : LayoutOK (eqLayout p) := by
+  unfold eqLayout; split
+  · exact layoutOK_identity
+  · exact layoutOK_sepOne
+
+/-- any division will do: an equity posting has no value position -/
+def div0 : Dec → Dec → Dec := fun _ _ => Dec.zero
+
+theorem eqPostingChars_eq (p : EqPosting) : eqPostingChars p = postingL (eqLayout p) div0 (C10.toPosting p) := by
+  unfold eqPostingChars eqLayout postingL postingValueChars priceChars postCommentChars trailFor C10.toPosting
+  by_cases hn : p.amount.isNeg = true
+  · simp [hn, Layout.identity]
+  · simp [hn, sepOne, Layout.identity]
+
+theorem rawPostingOf_toPosting (p : EqPosting) : rawPostingOf div0 (C10.toPosting p) = p.toRaw := by
+  unfold rawPostingOf unitOfPosting closingOfPosting C10.toPosting EqPosting.toRaw
+  by_cases hc : p.comm = "" <;> simp [hc]
+
+/-- lexical well-formedness of a generated posting: a valid account name, a representable amount, a valid
+    commodity name or none -/
+structure EqPostingWF (p : EqPosting) : Prop where
+  acct : AcctLex p.acct
+  amount : NumWF p.amount
+  comm : p.comm = "" ∨ (IdentWF p.comm.toList ∧ isValidId p.comm.toList = true)
+
+theorem postingWF_toPosting (p : EqPosting) (h : EqPostingWF p) : PostingWF div0 (C10.toPosting p) :=
+  ⟨h.acct, h.amount, h.comm, fun e => e, fun _ hne => absurd rfl hne, fun _ e => by cases e⟩
+
+/-- **posting line of the equity export** parses to the parse tree `EqPosting.toRaw` -/
+theorem parseTxnPosting_eqPosting (p : EqPosting) (h : EqPostingWF p) (rest : List Char) :
+    parseTxnPosting (eqPostingChars p ++ rest) = .ok p.toRaw rest := by
+  rw [eqPostingChars_eq, ← rawPostingOf_toPosting]
+  exact parseTxnPosting_print (eqLayout p) (layoutOK_eqLayout p) div0 _ (postingWF_toPosting p h) rest
+
+theorem eqPostingChars_start (p : EqPosting) (h : EqPostingWF p) (r : List Char) :
+    PostingStart (eqPostingChars p ++ r) := by
+  rw [eqPostingChars_eq]
+  exact postingL_start (eqLayout p) (layoutOK_eqLayout p) div0 _ (postingWF_toPosting p h) r
+
+/-- **postings of a generated transaction**: all posting lines, then a blank line or the end -/
+theorem parseTxnPostings_eq (p0 : EqPosting) (ps : List EqPosting) (hp : ∀ p ∈ p0 :: ps, EqPostingWF p)
+    (rest : List Char) (hr : BlankOrEnd rest) :
+    parseTxnPostings (((p0 :: ps).map eqPostingChars).flatten ++ rest) =
+      .ok ((p0 :: ps).map EqPosting.toRaw, none) rest := by
+  unfold parseTxnPostings
+  rw [repeat1_list parseTxnPosting parseTxnPosting_cons eqPostingChars EqPosting.toRaw (fun _ => True) rest
+    (parseTxnPosting_end hr) trivial p0 ps (fun p hpm r _ => ⟨trivial, parseTxnPosting_eqPosting p (hp p hpm) r⟩)]
+  simp only [Res.bind_ok']
+  rw [opt_of_bt (parseTxnLastPosting_end hr)]
+  rfl
+
+/-- lexical well-formedness of a generated transaction -/
+structure EqTxnWF (t : EqTxn) : Prop where
+  ts : TsOK t.ts = true
+  desc : LineText t.desc.toList ∧ trimEnd t.desc.toList = t.desc.toList
+  comments : ∀ c ∈ t.comments, LineText c.toList
+  posts_ne : t.posts ≠ []
+  posts : ∀ p ∈ t.posts, EqPostingWF p
+
+theorem headerWF_toRaw (t : EqTxn) (h : EqTxnWF t) : HeaderWF t.toRaw.header := by
+  refine ⟨fun c e => (by cases e), ?_, ⟨fun u e => (by cases e), fun g e => (by cases e), fun x e => (by cases e)⟩, ?_⟩
+  · intro d e
+    simp only [EqTxn.toRaw, Option.some.injEq] at e
+    subst e
+    exact h.desc
+  · intro cs e
+    simp only [EqTxn.toRaw, optList] at e
+    split at e
+    · cases e
+    · cases e
+      refine ⟨?_, h.comments⟩
+      intro hn
+      simp_all
+
+theorem blankGap : ['\n'] = blankLines Layout.identity [[]] := by
+  simp [blankLines, Layout.identity]
+
+/-- **generated transaction**: parses to the parse tree `EqTxn.toRaw` -/
+theorem parseTxn_eqTxn (cfg : Time.TsCfg) (t : EqTxn) (h : EqTxnWF t) (rest : List Char) (hr : TxnStartOrEnd rest) :
+    parseTxn cfg (eqTxnChars t ++ rest) = .ok t.toRaw rest := by
+  obtain ⟨p0, ps, hps⟩ := List.exists_cons_of_ne_nil h.posts_ne
+  have hpw : ∀ p ∈ p0 :: ps, EqPostingWF p := by rw [← hps]; exact h.posts
+  have hgb : ∀ l ∈ [([] : List Char)], Blanks l := by
+    intro l hl; simp at hl; subst hl; intro c hc; cases hc
+  have hform : eqTxnChars t ++ rest =
+      headerL Layout.identity t.toRaw.header ++ (((p0 :: ps).map eqPostingChars).flatten ++
+        (blankLines Layout.identity [[]] ++ rest)) := by
+    rw [← blankGap]
+    simp [eqTxnChars, hps]
+  rw [hform]
+  unfold parseTxn
+  rw [cutErr_of_ok (parseTxnHeader_print cfg Layout.identity layoutOK_identity t.toRaw.header
+    (ts_roundtrip cfg t.ts h.ts) (headerWF_toRaw t h) _ (by
+      simp only [List.map_cons, List.flatten_cons, List.append_assoc]
+      exact eqPostingChars_start p0 (hpw p0 List.mem_cons_self) _))]
+  simp only [Res.bind_ok']
+  rw [cutErr_of_ok (parseTxnPostings_eq p0 ps hpw _
+    (blankLines_blankOrEnd Layout.identity layoutOK_identity [] [] (hgb [] (by simp)) rest))]
+  simp only [Res.bind_ok']
+  rw [alt_of_ok (multispace_print Layout.identity layoutOK_identity [] [] hgb rest hr)]
+  simp only [Res.bind_ok']
+  simp [EqTxn.toRaw, hps]
+
+theorem eqTxnChars_form (t : EqTxn) (r : List Char) :
+    ∃ rest', eqTxnChars t ++ r = pad 4 (tsY t.ts) ++ rest' := by
+  have e : t.toRaw.header.ts = t.ts := rfl
+  exact ⟨_, by rw [eqTxnChars, List.append_assoc, List.append_assoc, headerL_eq, e, rfc3339_eq]⟩
+
+theorem eqTxnChars_start (t : EqTxn) (r : List Char) : TxnStartOrEnd (eqTxnChars t ++ r) := by
+  obtain ⟨rest', hform⟩ := eqTxnChars_form t r
+  obtain ⟨c, u, hc⟩ := List.exists_cons_of_ne_nil (pad_ne_nil 4 (tsY t.ts))
+  have hd : isDecDigit c = true := by
+    have := padLeft_all_digits 4 (tsY t.ts) c
+    apply this
+    show c ∈ pad 4 _
+    rw [hc]; exact List.mem_cons_self
+  rw [hform, hc]
+  refine Or.inr ⟨c, u ++ rest', rfl, isSpace_of_digit c hd, ?_, ?_⟩
+  · intro e; rw [e] at hd; revert hd; decide
+  · intro e; rw [e] at hd; revert hd; decide
+
+theorem eqTxnChars_ne_nil (t : EqTxn) : eqTxnChars t ≠ [] := by
+  intro h
+  obtain ⟨rest', hform⟩ := eqTxnChars_form t []
+  rw [h] at hform
+  have := pad_ne_nil 4 (tsY t.ts)
+  cases hp : pad 4 (tsY t.ts) with
+  | nil => exact this hp
+  | cons c u => rw [hp] at hform; simp at hform
+
+/-- **the whole export**: a non-empty list of well-formed generated transactions prints to a text that the journal
+    grammar maps to exactly their parse trees `EqTxn.toRaw`, in order (any journal zone: the export prints offsets) -/
+theorem parseJournal_eqChars (cfg : Time.TsCfg) (out : List EqTxn) (hne : out ≠ []) (hw : ∀ t ∈ out, EqTxnWF t) :
+    parseJournal cfg (eqChars out) = some (out.map EqTxn.toRaw) := by
+  obtain ⟨t0, tl, rfl⟩ := List.exists_cons_of_ne_nil hne
+  obtain ⟨hrt, hq⟩ := repeatTill1_list (parseTxn cfg) (parseTxn_cons cfg) eqTxnChars EqTxn.toRaw TxnStartOrEnd (Or.inl rfl)
+    t0 tl (fun t htm => ⟨eqTxnChars_ne_nil t, fun r hr => ⟨eqTxnChars_start t r, parseTxn_eqTxn cfg t (hw t htm) r hr⟩⟩)
+  have hlead : opt multispace0LineEnding (eqChars (t0 :: tl)) = .ok none (((t0 :: tl).map eqTxnChars).flatten) := by
+    apply opt_of_bt
+    unfold multispace0LineEnding repeat1
+    unfold eqChars
+    rw [blankLine_stop hq]; rfl
+  unfold parseJournal parseTxns
+  rw [hlead]; simp only [Res.bind_ok']
+  rw [hrt]
 
 end E2E
 end Tackler
